@@ -19,3 +19,10 @@ pub open spec fn limbs32_val(s: Seq<u32>) -> int decreases s.len() {
 pub open spec fn bytes_val(s: Seq<u8>) -> int decreases s.len() {
     if s.len() == 0 { 0 } else { s[0] as int + 256 * bytes_val(s.drop_first()) }
 }
+
+// commutativity of the modular operations as broadcast lemmas (each application produces at most the mirrored term, so
+// there is no matching loop): an operand swap in the source must not turn a formula proof into a failure
+pub broadcast proof fn lemma_mmul_comm_b(p: int, a: int, b: int) ensures #[trigger] mmul(p, a, b) == mmul(p, b, a)
+{ assert(a * b == b * a) by(nonlinear_arith); }
+pub broadcast proof fn lemma_madd_comm_b(p: int, a: int, b: int) ensures #[trigger] madd(p, a, b) == madd(p, b, a) { }
+pub broadcast group comm_ops { lemma_mmul_comm_b, lemma_madd_comm_b }
